@@ -1352,6 +1352,12 @@ class T:
             return ("seq", lambda rest: self.binds(pre, f"(let! {pat} := {head} in\n  {rest})"), env2)
         if not fresh:
             return ("seq", lambda rest: self.binds(pre, rest), env2)
+        if len(join) == 1 and not st.orelse and join[0][0] in env and env[join[0][0]].t == join[0][1] \
+                and env[join[0][0]].s.replace("_", "a").isalnum():
+            # one-armed update of one variable: a conditional function applied to the old value, so that the old
+            # value occurs once (the same term as `if c then NEW else old`, beta-expanded)
+            o = env[join[0][0]].s
+            head = f"((if {c} then (fun {o} => {parts[0]}) else (fun {o} => {o})) {o})"
         return ("seq", lambda rest: self.binds(pre, f"(let {pat} := {head} in\n  {rest})"), env2)
 
     def opaque_stmt(self, st, env, ctx, why):
